@@ -669,6 +669,10 @@ def is_attr(node, base, attr):
     return isinstance(node, ast.Attribute) and node.attr == attr and isinstance(node.value, ast.Name) and node.value.id == base
 
 
+def is_attr_of_self(node):
+    return isinstance(node, ast.Attribute) and isinstance(node.value, ast.Name) and node.value.id == 'self'
+
+
 def find_all(root, typ, pred=None):
     out = [n for n in ast.walk(root) if isinstance(n, typ) and (pred is None or pred(n))]
     out.sort(key=lambda n: (getattr(n, 'lineno', 0), getattr(n, 'col_offset', 0)))
